@@ -7,6 +7,7 @@
 #include <string.h>
 #include <time.h>
 #include <stdio.h>
+#define NEED_PS_TIME_CONCRETE
 #include "core/coreApi.h"
 
 #define VFH_STREAMS 16
@@ -69,8 +70,11 @@ int32 __wrap_psGetEntropy(unsigned char *bytes, uint32 size, void *userPtr)
     return (int32) size;
 }
 
-/* psTime_t is an opaque union; we store virtual milliseconds in psTimeAbstract[0] and wrap every
-   function that interprets it. */
+/* Virtual monotonic clock: psGetTime fills the platform's concrete psTime_t (a struct timespec on this
+   build) from the virtual clock, so that the library's own psDiffMsecs / psCompareTime run unchanged on it
+   (their 32-bit millisecond arithmetic is part of what the checks exercise). */
+extern int32 __real_psDiffMsecs(psTime_t then, psTime_t now, void *userPtr);
+extern int32 __real_psCompareTime(psTime_t a, psTime_t b, void *userPtr);
 int32 __wrap_psGetTime(psTime_t *t, void *userPtr)
 {
     psTime_t lt;
@@ -79,21 +83,20 @@ int32 __wrap_psGetTime(psTime_t *t, void *userPtr)
     {
         t = &lt;
     }
-    t->psTimeAbstract[0] = (unsigned long long) g_now_ms;
-    t->psTimeAbstract[1] = 0;
+    memset(t, 0, sizeof *t);
+    t->psTimeInternal.tv_sec = (time_t) (g_now_ms / 1000);
+    t->psTimeInternal.tv_nsec = (long) (g_now_ms % 1000) * 1000000L;
     return (int32) (g_now_ms / 1000);
 }
 
 int32 __wrap_psDiffMsecs(psTime_t then, psTime_t now, void *userPtr)
 {
-    (void) userPtr;
-    return (int32) ((long long) now.psTimeAbstract[0] - (long long) then.psTimeAbstract[0]);
+    return __real_psDiffMsecs(then, now, userPtr);
 }
 
 int32 __wrap_psCompareTime(psTime_t a, psTime_t b, void *userPtr)
 {
-    (void) userPtr;
-    return a.psTimeAbstract[0] <= b.psTimeAbstract[0] ? 1 : 0;
+    return __real_psCompareTime(a, b, userPtr);
 }
 
 time_t __wrap_time(time_t *t)
